@@ -414,6 +414,45 @@ Proof.
     right. do 3 (split; [done|]). exists l1, lg. done.
 Qed.
 
+(** ** the script contract's calls against the honest token *)
+Notation hfold tk cf :=
+  (fold_left (fun acc l => match acc with None => None | Some s => hook_log tk cf s l end)).
+
+Lemma hfold_none {T} (tk : token T) cf logs : hfold tk cf logs None = None.
+Proof. induction logs as [|g r IH]; cbn [fold_left]; done. Qed.
+
+(** tokens that the logs of a receipt report as sent to the module address *)
+Fixpoint to_mod (lg : list log) : Z :=
+  match lg with
+  | [] => 0
+  | g :: r => (if N.eqb (lto g) MODULE then lamt g else 0) + to_mod r
+  end.
+
+Lemma to_mod_nonneg lg : Forall (fun g => 0 <= lamt g) lg -> 0 <= to_mod lg.
+Proof. induction 1 as [|g r Hg Hr IH]; cbn [to_mod]; [lia|]. destruct (N.eqb _ _); lia. Qed.
+
+Lemma h_batch_calls c cs : c <> MODULE -> forall l l1 lg,
+  batch_calls HT l c cs = Some (l1, lg) ->
+  (wfl l -> wfl l1) /\ ltotal l1 = ltotal l /\ lminter l1 = lminter l /\
+  Forall (fun g => lfrom g = c /\ 0 <= lamt g) lg /\
+  zget (lbal l1) MODULE = zget (lbal l) MODULE + to_mod lg.
+Proof.
+  intros Hc. induction cs as [|[to x catch|k x] r IH]; intros l l1 lg; cbn [batch_calls].
+  - intros [= <- <-]. cbn. do 3 (split; [done|]). split; [constructor|lia].
+  - hsimp. destruct (std_transfer l c to x) as [[l2 g2]|] eqn:Htr; cbn [with_ret].
+    + destruct (batch_calls HT l2 c r) as [[l3 g3]|] eqn:Hr; [|discriminate]. intros [= <- <-].
+      destruct (std_transfer_spec _ _ _ _ _ _ Htr) as (_ & _ & Hx & -> & Ht & Hmi & Hz & Hw).
+      destruct (IH _ _ _ Hr) as (Hw3 & Ht3 & Hmi3 & Hf3 & Hm3).
+      split; [auto|]. split; [congruence|]. split; [congruence|]. split.
+      * cbn [app]. constructor; [cbn; split; [done|lia]|done].
+      * rewrite Hm3, Hz, (ind_diff c MODULE) by done. cbn [app to_mod tlog lto lamt].
+        unfold ind. destruct (N.eqb_spec to MODULE) as [->|Hn].
+        -- rewrite decide_True by done. lia.
+        -- rewrite decide_False by done. lia.
+    + destruct catch; [|discriminate]. apply IH.
+  - apply IH.
+Qed.
+
 (** ** coin-origin pair with the module's own (honest) contract *)
 Definition gap (s : st ledger) : Z := zget (cbal s) MODULE - ltotal (tok s).
 
@@ -535,6 +574,59 @@ Section HonestCoin.
       intros [= <- <-]. split; [done|cbn; lia].
   Qed.
 
+  (** the hook on ANY log whose [from] is not the module address *)
+  Lemma coin_hook_log (s : st ledger) g s' : InvCoin s -> lfrom g <> MODULE ->
+    hook_log HT cf s g = Some s' -> InvCoin s' /\ gap s' = gap s.
+  Proof.
+    intros Hinv Hf. pose proof Hinv as [Hown Hmin Hwf Hback]. unfold hook_log.
+    destruct (lk g); try (intros [= <-]; split; [done|lia]). rewrite Hown.
+    destruct (Z.leb_spec (lamt g) 0); [intros [= <-]; split; [done|lia]|].
+    destruct (negb (reg s)); [intros [= <-]; split; [done|lia]|].
+    destruct (negb (N.eqb (lto g) MODULE)); [intros [= <-]; split; [done|lia]|].
+    destruct (negb (en s)); [intros [= <-]; split; [done|lia]|].
+    hsimp. destruct (std_burn (tok s) MODULE (lamt g)) as [[l2 lg2]|] eqn:Hb; [|intros [= <-]; split; [done|lia]].
+    destruct (std_burn_spec _ _ _ _ _ Hb) as (_ & Hx2 & _ & Ht2 & Hmi2 & _ & Hw2).
+    unfold blocked. destruct (N.eqb_spec (lfrom g) MODULE); [done|]. sst.
+    assert (Hle : lamt g <= zget (cbal s) MODULE).
+    { destruct Hwf as [Hnn Hs]. pose proof (msum_ge (lbal (tok s)) MODULE Hnn). unfold gap in Hback. lia. }
+    unfold bank_send. destruct (Z.leb_spec (lamt g) 0); [lia|]. destruct (Z.ltb_spec (zget (cbal s) MODULE) (lamt g)); [lia|].
+    cbn [orb]. intros [= <-].
+    match goal with |- InvCoin ?S /\ _ => assert (Hg : gap S = gap s) end.
+    { unfold gap. sst. rewrite !zget_zset. rewrite (decide_False (P := lfrom g = MODULE)) by done.
+      rewrite decide_True by done. lia. }
+    split; [|lia]. split; sst; [done|congruence|auto|lia].
+  Qed.
+
+  Lemma coin_hook logs : forall (s s' : st ledger), InvCoin s -> Forall (fun g => lfrom g <> MODULE) logs ->
+    hook HT cf s logs = Some s' -> InvCoin s' /\ gap s' = gap s.
+  Proof.
+    intros s s' Hinv Hf. unfold hook. destruct (negb _); [intros [= <-]; split; [done|lia]|].
+    revert s Hinv. induction Hf as [|g r Hg Hr IH]; intros s Hinv; cbn [fold_left].
+    - intros [= <-]. split; [done|lia].
+    - destruct (hook_log HT cf s g) as [s1|] eqn:E; [|rewrite hfold_none; discriminate].
+      destruct (coin_hook_log _ _ _ Hinv Hg E) as [Hinv1 Hg1]. intros H.
+      destruct (IH _ Hinv1 H) as [Hinv2 Hg2]. split; [done|lia].
+  Qed.
+
+  (** one transaction of the script contract: any list of calls, any number of
+      Transfer-to-module logs in the receipt *)
+  Lemma coin_batch (s : st ledger) a cs s' r : InvCoin s ->
+    batch_tx HT cf s a cs = (s', r) -> InvCoin s' /\ gap s' = gap s.
+  Proof.
+    intros Hinv. pose proof Hinv as [Hown Hmin Hwf Hback]. unfold batch_tx.
+    destruct (has_key a); cbn [negb]; [|intros [= <- <-]; split; [done|lia]].
+    destruct (batch_calls HT (tok s) SCRIPT cs) as [[l1 lg]|] eqn:Hb; [|intros [= <- <-]; split; [done|lia]].
+    assert (Hsm : SCRIPT <> MODULE) by done.
+    destruct (h_batch_calls _ _ Hsm _ _ _ Hb) as (Hw & Ht & Hmi & Hf & _).
+    assert (Hinv1 : InvCoin (set_tok s l1) /\ gap (set_tok s l1) = gap s).
+    { split; [split; sst; [done|congruence|auto|unfold gap in *; sst; lia]|unfold gap; sst; lia]. }
+    destruct Hinv1 as [Hinv1 Hg1].
+    destruct (hook HT cf (set_tok s l1) lg) as [s2|] eqn:Hh; intros [= <- <-]; [|split; [done|lia]].
+    assert (Hf' : Forall (fun g => lfrom g <> MODULE) lg).
+    { eapply Forall_impl; [exact Hf|]. intros g [-> _]. done. }
+    destruct (coin_hook _ _ _ Hinv1 Hf' Hh). split; [done|lia].
+  Qed.
+
   Lemma coin_send (s : st ledger) a b x s' r : InvCoin s ->
     msg_send HT cf s a b x = (s', r) -> InvCoin s' /\ gap s' = gap s.
   Proof.
@@ -597,7 +689,7 @@ Section HonestCoin.
   Theorem coin_step (s : st ledger) o s' r : InvCoin s -> step HT cf s o = (s', r) ->
     InvCoin s' /\ gap s' = gap s + burn_of o r.
   Proof.
-    intros Hinv. destruct o as [a x|a b x|a b x|a b x|a c|a b x|a x| |e h|mint smod esc b x|success mint esc b x|mint esc b x];
+    intros Hinv. destruct o as [a x|a b x|a b x|a b x|a c|a b x|a x| |e h|mint smod esc b x|success mint esc b x|mint esc b x|a cs];
       cbn [step].
     - destruct (credit s true 0 a x) as [s1|] eqn:Hc; intros [= <- <-]; [|split; [done|cbn; lia]].
       destruct (coin_credit _ _ _ _ _ _ Hinv Hc). split; [done|cbn; lia].
@@ -620,6 +712,7 @@ Section HonestCoin.
       destruct success; [intros [= <- <-]; split; [done|cbn; lia]|].
       intros H. destruct (coin_refund _ _ _ _ _ _ _ Hinv H). split; [done|cbn; lia].
     - intros H. destruct (coin_refund _ _ _ _ _ _ _ Hinv H). split; [done|cbn; lia].
+    - intros H. destruct (coin_batch _ _ _ _ _ Hinv H). split; [done|cbn; lia].
   Qed.
 End HonestCoin.
 
@@ -703,6 +796,57 @@ Section HonestExt.
       apply Hh; rewrite Hz; unfold ind; destruct (decide (to = MODULE)); lia.
   Qed.
 
+  (** the hook on ANY log with a non-negative amount: coins are created only for a
+      log addressed to the module, by that log's own amount; the token is untouched *)
+  Lemma ext_hook_log (s : st ledger) g : own_mod s = false -> 0 <= lamt g ->
+    match hook_log HT cf s g with
+    | None => True
+    | Some s' => own_mod s' = false /\ tok s' = tok s /\
+                 supply s' <= supply s + (if N.eqb (lto g) MODULE then lamt g else 0)
+    end.
+  Proof.
+    intros Hown Hx. unfold hook_log. rewrite Hown.
+    destruct (lk g); try (split; [done|split; [done|destruct (N.eqb _ _); lia]]).
+    destruct (lamt g <=? 0); [split; [done|split; [done|destruct (N.eqb _ _); lia]]|].
+    destruct (negb (reg s)); [split; [done|split; [done|destruct (N.eqb _ _); lia]]|].
+    destruct (N.eqb (lto g) MODULE); cbn [negb]; [|split; [done|split; [done|lia]]].
+    destruct (negb (en s)); [split; [done|split; [done|lia]]|].
+    destruct (negb (hook_ext cf)); [split; [done|split; [done|lia]]|].
+    destruct (MAXU <? supply s + lamt g); [done|].
+    destruct (blocked (lfrom g)); [split; sst; [done|split; [done|lia]]|].
+    destruct (bank_send _ MODULE (lfrom g) (lamt g)); split; sst; (done || (split; [done|lia])).
+  Qed.
+
+  Lemma ext_hook_fold logs : forall (s : st ledger), own_mod s = false ->
+    Forall (fun g => 0 <= lamt g) logs ->
+    supply s + to_mod logs <= zget (lbal (tok s)) MODULE ->
+    match hfold HT cf logs (Some s) with None => True | Some s' => InvExt s' end.
+  Proof.
+    induction logs as [|g r IH]; intros s Hown Hf Hle; cbn [fold_left].
+    - cbn in Hle. split; [done|lia].
+    - inversion Hf as [|? ? Hg Hr]; subst.
+      pose proof (ext_hook_log s g Hown Hg) as Hl.
+      destruct (hook_log HT cf s g) as [s1|]; [|rewrite hfold_none; done].
+      destruct Hl as (Hown1 & Ht1 & Hs1). apply IH; [done|done|].
+      rewrite Ht1. cbn [to_mod] in Hle. lia.
+  Qed.
+
+  Lemma ext_batch (s : st ledger) a cs s' r : InvExt s -> batch_tx HT cf s a cs = (s', r) -> InvExt s'.
+  Proof.
+    intros Hinv. pose proof Hinv as [Hown Hback]. unfold batch_tx.
+    destruct (has_key a); cbn [negb]; [|intros [= <- <-]; done].
+    destruct (batch_calls HT (tok s) SCRIPT cs) as [[l1 lg]|] eqn:Hb; [|intros [= <- <-]; done].
+    assert (Hsm : SCRIPT <> MODULE) by done.
+    destruct (h_batch_calls _ _ Hsm _ _ _ Hb) as (_ & _ & _ & Hf & Hm).
+    assert (Hf' : Forall (fun g => 0 <= lamt g) lg).
+    { eapply Forall_impl; [exact Hf|]. intros g [_ ?]. done. }
+    pose proof (ext_hook_fold lg (set_tok s l1) Hown Hf') as Hh. sst.
+    unfold hook. sst. destruct (negb _).
+    - intros [= <- <-]. pose proof (to_mod_nonneg lg Hf'). split; sst; [done|lia].
+    - destruct (hfold HT cf lg (Some (set_tok s l1))) as [s2|]; intros [= <- <-]; [|done].
+      apply Hh. lia.
+  Qed.
+
   Lemma ext_send (s : st ledger) a b x s' r : InvExt s -> msg_send HT cf s a b x = (s', r) -> InvExt s'.
   Proof.
     intros Hinv. pose proof Hinv as [Hown Hback]. unfold msg_send.
@@ -729,7 +873,7 @@ Section HonestExt.
 
   Theorem ext_step (s : st ledger) o s' r : InvExt s -> step HT cf s o = (s', r) -> InvExt s'.
   Proof.
-    intros Hinv. destruct o as [a x|a b x|a b x|a b x|a c|a b x|a x| |e h|mint smod esc b x|success mint esc b x|mint esc b x];
+    intros Hinv. destruct o as [a x|a b x|a b x|a b x|a c|a b x|a x| |e h|mint smod esc b x|success mint esc b x|mint esc b x|a cs];
       cbn [step].
     - destruct (credit s true 0 a x) as [s1|] eqn:Hc; intros [= <- <-]; [|done]. eapply ext_credit; eauto.
     - destruct (credit s false a b x) as [s1|] eqn:Hc; intros [= <- <-]; [|done]. eapply ext_credit; eauto.
@@ -761,6 +905,7 @@ Section HonestExt.
       destruct (_ || _); [intros [= <- <-]; done|].
       destruct (convert_coin HT s1 b b x) as [s2 r2] eqn:Hcc.
       pose proof (ext_convert_coin _ _ _ _ _ _ Hinv1 Hcc). destruct r2; intros [= <- <-]; done.
+    - apply ext_batch. done.
   Qed.
 End HonestExt.
 
@@ -781,7 +926,7 @@ Lemma holder_burns_none cf ops : no_holder_burn ops -> forall s, holder_burns cf
 Proof.
   induction ops as [|o r IH]; intros Hn s; cbn [holder_burns]; [done|].
   destruct (step HT cf s o) as [s' res]. rewrite IH.
-  - destruct o as [| | | |a c| | | | | | |]; cbn; try lia. destruct c; cbn; try lia.
+  - destruct o as [| | | |a c| | | | | | | |]; cbn; try lia. destruct c; cbn; try lia.
     exfalso. eapply Hn. left. done.
   - intros a x Hin. eapply Hn. right. exact Hin.
 Qed.
@@ -792,7 +937,7 @@ Proof.
   destruct (step HT cf s o) as [s' res] eqn:Hs.
   destruct (coin_step cf _ _ _ _ Hinv Hs) as [Hinv' Hg]. specialize (IH s' Hinv').
   assert (0 <= burn_of o res); [|lia].
-  destruct o as [| | | |a c| | | | | | |]; cbn; try lia. destruct c; cbn; try lia.
+  destruct o as [| | | |a c| | | | | | | |]; cbn; try lia. destruct c; cbn; try lia.
   destruct (N.eqb res OK) eqn:E; [|lia].
   (* a successful burn has a non-negative amount *)
   cbn [step] in Hs. unfold eth_tx in Hs. destruct (has_key a); cbn [negb] in Hs; [|injection Hs as _ <-; discriminate].
@@ -866,7 +1011,7 @@ Qed.
 Theorem failed_step_no_effect {T} (tk : token T) cf (s : st T) o s' r :
   step tk cf s o = (s', r) -> r <> OK -> s' = s.
 Proof.
-  intros H Hr. destruct o as [a x|a b x|a b x|a b x|a c|a b x|a x| |e h|mint smod esc b x|success mint esc b x|mint esc b x];
+  intros H Hr. destruct o as [a x|a b x|a b x|a b x|a c|a b x|a x| |e h|mint smod esc b x|success mint esc b x|mint esc b x|a cs];
     cbn [step] in H.
   - destruct (credit s true 0 a x); injection H as <- <-; done.
   - destruct (credit s false a b x); injection H as <- <-; done.
@@ -896,6 +1041,9 @@ Proof.
     destruct (credit s mint esc b x); [|injection H as <- <-; done].
     destruct (_ || _); [injection H as <- <-; done|].
     destruct (convert_coin tk s0 b b x) as [s2 [|?]]; injection H as <- <-; done.
+  - unfold batch_tx in H. destruct (negb (has_key a)); [injection H as <- <-; done|].
+    destruct (batch_calls tk (tok s) SCRIPT cs) as [[t1 lg]|]; [|injection H as <- <-; done].
+    destruct (hook tk cf (set_tok s t1) lg); injection H as <- <-; done.
 Qed.
 
 (** * the transfer-to-module hook *)
@@ -970,6 +1118,229 @@ Proof.
     destruct (decide (a = c)) as [->|]; destruct (decide (MODULE = c)) as [<-|]; try done; lia.
 Qed.
 
+(** ** several Transfer-to-module logs in ONE receipt (a contract that makes several transfers) *)
+Fixpoint zsum (xs : list Z) : Z := match xs with [] => 0 | x :: r => x + zsum r end.
+
+Lemma zsum_nonneg xs : Forall (fun x => 0 < x) xs -> 0 <= zsum xs.
+Proof. induction 1 as [|x r Hx Hr IH]; cbn [zsum] in *; lia. Qed.
+
+(** the amounts of the calls on this pair's token *)
+Fixpoint mod_amounts (cs : list bcall) : list Z :=
+  match cs with
+  | [] => []
+  | BXfer _ x _ :: r => x :: mod_amounts r
+  | BForeign _ _ :: r => mod_amounts r
+  end.
+
+(** plain transfers of positive amounts to the module address on this pair's
+    token, interleaved with calls to the tokens of other pairs *)
+Definition plain_xfer (c : bcall) : Prop :=
+  match c with
+  | BXfer to x catch => to = MODULE /\ 0 < x /\ catch = false
+  | BForeign _ _ => True
+  end.
+
+Definition xfers (xs : list Z) : list bcall := map (fun x => BXfer MODULE x false) xs.
+
+Lemma batch_calls_plain {T} (tk : token T) c cs : Forall plain_xfer cs -> forall t,
+  batch_calls tk t c cs = batch_calls tk t c (xfers (mod_amounts cs)).
+Proof.
+  induction 1 as [|[to x catch|k x] r Hc Hr IH]; intros t; cbn [batch_calls mod_amounts xfers map]; [done| |apply IH].
+  destruct Hc as (-> & _ & ->). fold (xfers (mod_amounts r)).
+  destruct (call_transfer tk t c MODULE x) as [[[t1 ?] lg]|]; [|done]. rewrite IH. done.
+Qed.
+
+Lemma plain_amounts_pos cs : Forall plain_xfer cs -> Forall (fun x => 0 < x) (mod_amounts cs).
+Proof.
+  induction 1 as [|[to x catch|k x] r Hc Hr IH]; cbn [mod_amounts]; [constructor| |done].
+  destruct Hc as (_ & ? & _). constructor; done.
+Qed.
+
+Lemma same_pair_trans {T} (s1 s2 s3 : st T) : same_pair s1 s2 -> same_pair s2 s3 -> same_pair s1 s3.
+Proof. unfold same_pair. intros (? & ? & ? & ? & ?) (? & ? & ? & ? & ?). repeat split; congruence. Qed.
+
+(** the calls: every transfer moved its amount from the contract to the module *)
+Lemma h_batch_xfers c xs : c <> MODULE -> forall l l1 lg, 0 <= zget (lbal l) c ->
+  batch_calls HT l c (xfers xs) = Some (l1, lg) ->
+  lg = map (fun x => tlog c MODULE x) xs /\ zsum xs <= zget (lbal l) c /\
+  ltotal l1 = ltotal l /\ lminter l1 = lminter l /\
+  (forall a, zget (lbal l1) a = zget (lbal l) a - zsum xs * ind c a + zsum xs * ind MODULE a) /\
+  (wfl l -> wfl l1).
+Proof.
+  intros Hc. induction xs as [|x r IH]; intros l l1 lg Hnn; cbn [xfers map batch_calls].
+  - intros [= <- <-]. cbn [zsum]. do 4 (split; [done|]). split; [intros a; lia|done].
+  - fold (xfers r). hsimp.
+    destruct (std_transfer l c MODULE x) as [[l2 g2]|] eqn:Htr; cbn [with_ret]; [|discriminate].
+    destruct (batch_calls HT l2 c (xfers r)) as [[l3 g3]|] eqn:Hr; [|discriminate]. intros [= <- <-].
+    destruct (std_transfer_spec _ _ _ _ _ _ Htr) as (_ & _ & Hx & -> & Ht & Hmi & Hz & Hw).
+    assert (Hc2 : zget (lbal l2) c = zget (lbal l) c - x).
+    { rewrite Hz, ind_same, (ind_diff MODULE c) by done. lia. }
+    assert (Hnn2 : 0 <= zget (lbal l2) c) by lia.
+    destruct (IH _ _ _ Hnn2 Hr) as (-> & Hle & Ht3 & Hmi3 & Hz3 & Hw3).
+    cbn [zsum app].
+    split; [done|]. split; [lia|]. split; [congruence|]. split; [congruence|]. split; [|auto].
+    intros a. rewrite Hz3, Hz. lia.
+Qed.
+
+(** coin-origin: one log = burn of its own amount + payout of its own amount *)
+Lemma coin_hook_log_exact cf (s : st ledger) from x : InvCoin s -> reg s = true -> en s = true ->
+  0 < x -> x <= zget (lbal (tok s)) MODULE -> from <> MODULE ->
+  exists s', hook_log HT cf s (tlog from MODULE x) = Some s' /\ InvCoin s' /\ same_pair s s' /\
+    tok_moves s s' (fun c => - x * ind MODULE c) /\ ltotal (tok s') = ltotal (tok s) - x /\
+    coin_moves s s' (fun c => x * ind from c - x * ind MODULE c) /\ supply s' = supply s.
+Proof.
+  intros Hinv Hreg Hen Hx Hle Hf. pose proof Hinv as [Hown Hmin Hwf Hback].
+  unfold hook_log. cbn [tlog lk lamt lto lfrom]. rewrite Hown, Hreg, Hen.
+  destruct (Z.leb_spec x 0); [lia|]. cbn [negb]. change (N.eqb MODULE MODULE) with true. cbn [negb]. hsimp.
+  unfold std_burn. change (N.eqb MODULE ZERO) with false. cbn iota.
+  destruct (Z.ltb_spec x 0); [lia|]. cbn [orb].
+  destruct (Z.ltb_spec (zget (lbal (tok s)) MODULE) x); [lia|].
+  sst. unfold blocked. destruct (N.eqb_spec from MODULE); [done|].
+  assert (Hle2 : x <= zget (cbal s) MODULE).
+  { destruct Hwf as [Hnn Hs]. pose proof (msum_ge (lbal (tok s)) MODULE Hnn). unfold gap in Hback. lia. }
+  unfold bank_send. destruct (Z.leb_spec x 0); [lia|]. destruct (Z.ltb_spec (zget (cbal s) MODULE) x); [lia|].
+  cbn [orb]. eexists. split; [reflexivity|].
+  assert (Hcm : forall c, zget (zset (zset (cbal s) MODULE (zget (cbal s) MODULE - x)) from
+                        (zget (zset (cbal s) MODULE (zget (cbal s) MODULE - x)) from + x)) c
+                      = zget (cbal s) c + (x * ind from c - x * ind MODULE c)).
+  { intros c. rewrite !zget_zset. unfold ind.
+    destruct (decide (from = c)) as [->|]; destruct (decide (MODULE = c)) as [<-|]; try done; lia. }
+  assert (Htm : forall c, zget (zset (lbal (tok s)) MODULE (zget (lbal (tok s)) MODULE - x)) c
+                      = zget (lbal (tok s)) c + - x * ind MODULE c).
+  { intros c. rewrite zget_zset. unfold ind. destruct (decide (MODULE = c)) as [<-|]; lia. }
+  unfold same_pair, tok_moves, coin_moves. sst. cbn [lbal ltotal lminter].
+  split.
+  { split; sst; cbn [lbal ltotal lminter]; [done|done| |].
+    - destruct Hwf as [Hnn Hs]. split; cbn [lbal ltotal].
+      + intros c. rewrite Htm. specialize (Hnn c). unfold ind. destruct (decide (MODULE = c)) as [<-|]; lia.
+      + rewrite msum_zset. lia.
+    - unfold gap in *. sst. cbn [ltotal]. rewrite Hcm, ind_same, (ind_diff from MODULE) by done. lia. }
+  do 1 (split; [done|]). split; [exact Htm|]. split; [done|]. split; [exact Hcm|done].
+Qed.
+
+Lemma coin_hook_fold_exact cf from xs : from <> MODULE -> forall (s : st ledger), InvCoin s -> reg s = true -> en s = true ->
+  Forall (fun x => 0 < x) xs -> zsum xs <= zget (lbal (tok s)) MODULE ->
+  exists s', hfold HT cf (map (fun x => tlog from MODULE x) xs) (Some s) = Some s' /\ InvCoin s' /\ same_pair s s' /\
+    tok_moves s s' (fun c => - zsum xs * ind MODULE c) /\ ltotal (tok s') = ltotal (tok s) - zsum xs /\
+    coin_moves s s' (fun c => zsum xs * ind from c - zsum xs * ind MODULE c) /\ supply s' = supply s.
+Proof.
+  intros Hf. induction xs as [|x r IH]; intros s Hinv Hreg Hen Hpos Hle; cbn [map fold_left zsum] in *.
+  - exists s. unfold same_pair, tok_moves, coin_moves. do 3 (split; [done|]).
+    split; [intros c; lia|]. split; [lia|]. split; [intros c; lia|done].
+  - inversion Hpos as [|? ? Hx Hr]; subst. pose proof (zsum_nonneg r Hr) as Hnn.
+    destruct (coin_hook_log_exact cf s from x Hinv Hreg Hen Hx ltac:(lia) Hf)
+      as (s1 & -> & Hinv1 & Hsp1 & Htm1 & Ht1 & Hcm1 & Hs1).
+    pose proof Hsp1 as (Hr1 & _ & He1 & _ & _).
+    destruct (IH s1 Hinv1 ltac:(congruence) ltac:(congruence) Hr) as (s2 & -> & Hinv2 & Hsp2 & Htm2 & Ht2 & Hcm2 & Hs2).
+    { rewrite Htm1, ind_same. lia. }
+    exists s2. split; [done|]. split; [done|]. split; [eapply same_pair_trans; eauto|].
+    split; [intros c; rewrite Htm2, Htm1; lia|]. split; [lia|].
+    split; [intros c; rewrite Hcm2, Hcm1; lia|lia].
+Qed.
+
+(** honest token, coin-origin pair: ONE transaction in which the script contract
+    transfers x1, x2, ... to the module address (calls to other pairs' tokens in
+    between): exactly x1 + x2 + ... of its tokens are burned and exactly
+    x1 + x2 + ... escrowed coins are paid to it: every log converts its own amount *)
+Theorem hook_honest_exact_coin_batch cf (s : st ledger) a cs s' r : InvCoin s -> hook_active s ->
+  Forall plain_xfer cs -> let X := zsum (mod_amounts cs) in
+  batch_tx HT cf s a cs = (s', r) ->
+  (r <> OK /\ s' = s) \/
+  (r = OK /\ X <= zget (lbal (tok s)) SCRIPT /\ same_pair s s' /\
+   tok_moves s s' (fun c => - X * ind SCRIPT c) /\ ltotal (tok s') = ltotal (tok s) - X /\
+   coin_moves s s' (fun c => X * ind SCRIPT c - X * ind MODULE c) /\ supply s' = supply s).
+Proof.
+  intros Hinv (Hon & Hhk & Hreg & Hen) Hplain X. pose proof Hinv as [Hown Hmin Hwf Hback]. unfold batch_tx.
+  destruct (has_key a); cbn [negb]; [|intros [= <- <-]; left; done].
+  rewrite (batch_calls_plain HT SCRIPT cs Hplain).
+  destruct (batch_calls HT (tok s) SCRIPT (xfers (mod_amounts cs))) as [[l1 lg]|] eqn:Hb; [|intros [= <- <-]; left; done].
+  assert (Hsm : SCRIPT <> MODULE) by done.
+  pose proof Hwf as [Hnn _].
+  destruct (h_batch_xfers SCRIPT _ Hsm _ _ _ (Hnn SCRIPT) Hb) as (-> & Hle & Ht & Hmi & Hz & Hw). fold X in Hle, Hz.
+  assert (Hinv1 : InvCoin (set_tok s l1)).
+  { split; sst; [done|congruence|auto|unfold gap in *; sst; lia]. }
+  pose proof (plain_amounts_pos cs Hplain) as Hpos.
+  destruct (coin_hook_fold_exact cf SCRIPT (mod_amounts cs) Hsm (set_tok s l1) Hinv1 Hreg Hen Hpos)
+    as (s2 & Hfold & _ & Hsp & Htm & Htot & Hcm & Hsup).
+  { sst. fold X. rewrite Hz, ind_same, (ind_diff SCRIPT MODULE) by done. specialize (Hnn MODULE). lia. }
+  fold X in Htm, Htot, Hcm.
+  unfold hook. sst. rewrite Hon, Hhk. cbn [andb negb]. rewrite Hfold. intros [= <- <-]. right.
+  split; [done|]. split; [done|]. split; [exact Hsp|].
+  unfold tok_moves, coin_moves in *. sst.
+  split; [intros c; rewrite Htm, Hz; lia|]. split; [lia|]. split; [exact Hcm|done].
+Qed.
+
+(** token-origin: one log = mint of its own amount to the sender; the token is not touched *)
+Lemma ext_hook_log_exact cf (s : st ledger) from x : own_mod s = false -> reg s = true -> en s = true ->
+  hook_ext cf = true -> 0 < x -> 0 <= zget (cbal s) MODULE -> from <> MODULE ->
+  match hook_log HT cf s (tlog from MODULE x) with
+  | None => True
+  | Some s' => same_pair s s' /\ tok s' = tok s /\ coin_moves s s' (fun c => x * ind from c) /\ supply s' = supply s + x
+  end.
+Proof.
+  intros Hown Hreg Hen Hcf Hx Hesc Hf. unfold hook_log. cbn [tlog lk lamt lto lfrom]. rewrite Hown, Hreg, Hen, Hcf.
+  destruct (Z.leb_spec x 0); [lia|]. cbn [negb]. change (N.eqb MODULE MODULE) with true. cbn [negb].
+  destruct (MAXU <? supply s + x); [done|].
+  unfold blocked. destruct (N.eqb_spec from MODULE); [done|].
+  unfold bank_send. rewrite zget_zset, decide_True by done.
+  destruct (Z.leb_spec x 0); [lia|]. cbn [orb].
+  destruct (Z.ltb_spec (zget (cbal s) MODULE + x) x); [lia|].
+  unfold same_pair, coin_moves. sst. do 2 (split; [done|]). split; [|done].
+  intros c. rewrite !zget_zset. unfold ind.
+  destruct (decide (from = c)) as [->|]; destruct (decide (MODULE = c)) as [<-|]; try done; lia.
+Qed.
+
+Lemma ext_hook_fold_exact cf from xs : from <> MODULE -> hook_ext cf = true -> forall (s : st ledger),
+  own_mod s = false -> reg s = true -> en s = true -> Forall (fun x => 0 < x) xs -> 0 <= zget (cbal s) MODULE ->
+  match hfold HT cf (map (fun x => tlog from MODULE x) xs) (Some s) with
+  | None => True
+  | Some s' => same_pair s s' /\ tok s' = tok s /\ coin_moves s s' (fun c => zsum xs * ind from c) /\
+               supply s' = supply s + zsum xs
+  end.
+Proof.
+  intros Hf Hcf. induction xs as [|x r IH]; intros s Hown Hreg Hen Hpos Hesc; cbn [map fold_left zsum].
+  - unfold same_pair, coin_moves. do 2 (split; [done|]). split; [intros c; lia|lia].
+  - inversion Hpos as [|? ? Hx Hr]; subst.
+    pose proof (ext_hook_log_exact cf s from x Hown Hreg Hen Hcf Hx Hesc Hf) as H1.
+    destruct (hook_log HT cf s (tlog from MODULE x)) as [s1|]; [|rewrite hfold_none; done].
+    destruct H1 as (Hsp1 & Ht1 & Hcm1 & Hs1). pose proof Hsp1 as (Hr1 & Ho1 & He1 & _ & _).
+    assert (Hesc1 : 0 <= zget (cbal s1) MODULE).
+    { rewrite Hcm1, (ind_diff from MODULE) by done. lia. }
+    pose proof (IH s1 ltac:(congruence) ltac:(congruence) ltac:(congruence) Hr Hesc1) as H2.
+    destruct (hfold HT cf (map (fun x => tlog from MODULE x) r) (Some s1)) as [s2|]; [|done].
+    destruct H2 as (Hsp2 & Ht2 & Hcm2 & Hs2).
+    split; [eapply same_pair_trans; eauto|]. split; [congruence|].
+    split; [intros c; rewrite Hcm2, Hcm1; lia|lia].
+Qed.
+
+(** honest token, token-origin pair: x1 + x2 + ... tokens move from the script
+    contract to the module, exactly x1 + x2 + ... coins are minted to it *)
+Theorem hook_honest_exact_ext_batch cf (s : st ledger) a cs s' r : InvExt s -> hook_active s ->
+  Forall plain_xfer cs -> hook_ext cf = true -> 0 <= zget (cbal s) MODULE -> 0 <= zget (lbal (tok s)) SCRIPT ->
+  let X := zsum (mod_amounts cs) in
+  batch_tx HT cf s a cs = (s', r) ->
+  (r <> OK /\ s' = s) \/
+  (r = OK /\ X <= zget (lbal (tok s)) SCRIPT /\ same_pair s s' /\
+   tok_moves s s' (fun c => X * ind MODULE c - X * ind SCRIPT c) /\ ltotal (tok s') = ltotal (tok s) /\
+   coin_moves s s' (fun c => X * ind SCRIPT c) /\ supply s' = supply s + X).
+Proof.
+  intros [Hown Hback] (Hon & Hhk & Hreg & Hen) Hplain Hcf Hesc Hnn X. unfold batch_tx.
+  destruct (has_key a); cbn [negb]; [|intros [= <- <-]; left; done].
+  rewrite (batch_calls_plain HT SCRIPT cs Hplain).
+  destruct (batch_calls HT (tok s) SCRIPT (xfers (mod_amounts cs))) as [[l1 lg]|] eqn:Hb; [|intros [= <- <-]; left; done].
+  assert (Hsm : SCRIPT <> MODULE) by done.
+  destruct (h_batch_xfers SCRIPT _ Hsm _ _ _ Hnn Hb) as (-> & Hle & Ht & Hmi & Hz & _). fold X in Hle, Hz.
+  pose proof (plain_amounts_pos cs Hplain) as Hpos.
+  pose proof (ext_hook_fold_exact cf SCRIPT (mod_amounts cs) Hsm Hcf (set_tok s l1) Hown Hreg Hen Hpos Hesc) as Hfold.
+  unfold hook. sst. rewrite Hon, Hhk. cbn [andb negb].
+  destruct (hfold HT cf (map (fun x => tlog SCRIPT MODULE x) (mod_amounts cs)) (Some (set_tok s l1))) as [s2|];
+    intros [= <- <-]; [|left; done].
+  destruct Hfold as (Hsp & Htk & Hcm & Hsup). fold X in Hcm, Hsup. right.
+  split; [done|]. split; [done|]. split; [exact Hsp|].
+  unfold tok_moves, coin_moves in *. sst. rewrite Htk. sst.
+  split; [intros c; rewrite Hz; lia|]. split; [done|]. split; [exact Hcm|done].
+Qed.
+
 (** finding K7: an externally owned token that only emits Transfer(caller, module, 1000):
     one transaction, coin supply 0 -> 1000 in the caller's hands, nothing escrowed *)
 Definition k7_state : st unit := init false ∅ 0 tt.
@@ -1042,7 +1413,7 @@ Theorem mint_witnessed_spec {T} (tk : token T) cf (s : st T) o s' r :
   hook_ext cf = false -> own_mod s = false -> step tk cf s o = (s', r) -> mint_witnessed tk s s'.
 Proof.
   intros Hcf Hown H Hlt.
-  destruct o as [a x|a b x|a b x|a b x|a c|a b x|a x| |e h|mint smod esc b x|success mint esc b x|mint esc b x];
+  destruct o as [a x|a b x|a b x|a b x|a c|a b x|a x| |e h|mint smod esc b x|success mint esc b x|mint esc b x|a cs];
     cbn [step] in H.
   - destruct (credit s true 0 a x) as [s1|] eqn:Hc; injection H as <- <-; [|lia].
     destruct (credit_spec _ _ _ _ _ _ Hc) as (_ & _ & _ & _ & _ & Ho & _). congruence.
@@ -1106,6 +1477,11 @@ Proof.
     destruct (convert_coin tk s1 b b x) as [s2 r2] eqn:Hcc.
     assert (own_mod s1 = false) by congruence.
     destruct (convert_coin_supply tk _ _ _ _ _ _ H0 Hcc). destruct r2; injection H as <- <-; lia.
+  - unfold batch_tx in H. destruct (negb (has_key a)); [injection H as <- <-; lia|].
+    destruct (batch_calls tk (tok s) SCRIPT cs) as [[t1 lg]|]; [|injection H as <- <-; lia].
+    pose proof (hook_spec_ext_no_bank tk cf lg Hcf (set_tok s t1) Hown) as Hh.
+    destruct (hook tk cf (set_tok s t1) lg) as [s2|]; injection H as <- <-; [|lia].
+    destruct Hh as [Hs _]. cbn in Hs. lia.
 Qed.
 
 (** ... and the pinned tree violates it (K7) *)
@@ -1153,8 +1529,8 @@ Definition coin_history : list op :=
 Example coin_history_runs :
   codes HT impl coin_history coin0 = [OK; OK; OK; OK; OK; OK; OK; OK; OK; OK; EDisabled] /\
   observe HT (run HT impl coin_history coin0) OK =
-    mkobs OK true false true true [84; 0; 0; 35; 0; 0; 0] 120
-          [Some 0; Some 10; Some 29; Some 40; Some 0; Some 0; Some 0] (Some 79) true /\
+    mkobs OK true false true true [84; 0; 0; 35; 0; 0; 0; 0] 120
+          [Some 0; Some 10; Some 29; Some 40; Some 0; Some 0; Some 0; Some 0] (Some 79) true /\
   holder_burns impl coin_history coin0 = 5.
 Proof. vm_compute. repeat split. Qed.
 
@@ -1166,9 +1542,61 @@ Definition ext_history : list op :=
 Example ext_history_runs :
   codes HT impl ext_history ext0 = [OK; OK; OK; OK; OK; OK; OK; EOther] /\
   observe HT (run HT impl ext_history ext0) OK =
-    mkobs OK true true true true [0; 65; 10; 0; 0; 0; 0] 75
-          [Some 75; Some 200; Some 125; Some 100; Some 0; Some 0; Some 0] (Some 500) true.
+    mkobs OK true true true true [0; 65; 10; 0; 0; 0; 0; 0] 75
+          [Some 75; Some 200; Some 125; Some 100; Some 0; Some 0; Some 0; Some 0] (Some 500) true.
 Proof. vm_compute. repeat split. Qed.
+
+(** one transaction with several transfers to the module (coin-origin): holder 1
+    converts 100 coins, gives the script contract 12 tokens; ONE transaction
+    transfers 5 and 7 to the module (a call to another pair's token in between):
+    12 tokens burned, 12 coins paid, escrow = totalSupply = 88 *)
+Definition coin_batch_state : st ledger := run HT impl [Fund 1 100; CC 1 1 100; Eth 1 (UTransfer SCRIPT 12)] coin0.
+Definition coin_batch_calls : list bcall := [BXfer MODULE 5 false; BForeign 1 3; BXfer MODULE 7 false].
+
+Example coin_batch_runs :
+  InvCoin coin_batch_state /\ hook_active coin_batch_state /\ Forall plain_xfer coin_batch_calls /\
+  zsum (mod_amounts coin_batch_calls) = 12 /\
+  snd (step HT impl coin_batch_state (Batch 1 coin_batch_calls)) = OK /\
+  observe HT coin_batch_state OK =
+    mkobs OK true true true true [100; 0; 0; 0; 0; 0; 0; 0] 101
+          [Some 0; Some 88; Some 0; Some 0; Some 0; Some 0; Some 0; Some 12] (Some 100) true /\
+  observe HT (fst (step HT impl coin_batch_state (Batch 1 coin_batch_calls))) OK =
+    mkobs OK true true true true [88; 0; 0; 0; 0; 0; 0; 12] 101
+          [Some 0; Some 88; Some 0; Some 0; Some 0; Some 0; Some 0; Some 0] (Some 88) true.
+Proof.
+  split.
+  { pose proof (fresh_inv coin0 coin0_fresh) as [Hi _].
+    exact (proj1 (coin_all_histories impl [Fund 1 100; CC 1 1 100; Eth 1 (UTransfer SCRIPT 12)] coin0 Hi)). }
+  split; [vm_compute; repeat split|].
+  split; [repeat constructor; done|].
+  vm_compute. repeat split.
+Qed.
+
+(** token-origin, arbitrary calls: a transfer to a third party, a tolerated
+    failing transfer (more than the contract holds: no log), two transfers to the
+    module: 20 + 6 coins minted to the contract against 26 tokens at the module *)
+Definition ext_batch_state : st ledger := run HT impl [Eth 1 (UTransfer SCRIPT 50)] ext0.
+Definition ext_batch_calls : list bcall :=
+  [BXfer MODULE 20 false; BForeign 2 3; BXfer 3 4 false; BXfer MODULE 100 true; BXfer MODULE 6 false].
+
+Example ext_batch_runs :
+  InvExt ext_batch_state /\ hook_active ext_batch_state /\
+  snd (step HT impl ext_batch_state (Batch 2 ext_batch_calls)) = OK /\
+  observe HT (fst (step HT impl ext_batch_state (Batch 2 ext_batch_calls))) OK =
+    mkobs OK true true true true [0; 0; 0; 0; 0; 0; 0; 26] 26
+          [Some 26; Some 450; Some 0; Some 4; Some 0; Some 0; Some 0; Some 20] (Some 500) true /\
+  (* a transfer that is not tolerated and fails reverts the whole transaction *)
+  step HT impl ext_batch_state (Batch 2 [BXfer MODULE 20 false; BXfer MODULE 100 false]) = (ext_batch_state, EVMFail) /\
+  (* the plain case of the exactness theorem *)
+  Forall plain_xfer [BXfer MODULE 20 false; BXfer MODULE 6 false] /\
+  snd (step HT impl ext_batch_state (Batch 2 [BXfer MODULE 20 false; BXfer MODULE 6 false])) = OK.
+Proof.
+  split.
+  { pose proof (fresh_inv ext0 ext0_fresh) as Hi. exact (ext_all_histories impl [Eth 1 (UTransfer SCRIPT 50)] ext0 Hi). }
+  split; [vm_compute; repeat split|].
+  split; [vm_compute; done|]. split; [vm_compute; done|]. split; [vm_compute; done|].
+  split; [repeat constructor; done|]. vm_compute. done.
+Qed.
 
 (** a self-destructed token: the next conversion drops the pair and does nothing else *)
 Example selfdestructed_pair_dropped :
